@@ -117,9 +117,14 @@ def mutable_ids_in_data(d, acc=None):
 _REF_COUNTER = [0]
 
 
-def fresh_library_copy():
+SUBMODULES = ["dataclass_hide_default", "_constants", "_flags_data", "_args", "_line_mapping", "_blocks", "_code_data", "_normalize", "_json_data"]
+
+
+def fresh_library_copy(preimport=False):
     """A second, PRISTINE copy of the package under a private name: fresh module objects, hence fresh
-    module-level caches, memo tables and enum member maps.  Used as the reference for invariant P5."""
+    module-level caches, memo tables and enum member maps.  Used as the reference for invariant P5.
+    preimport=True imports every sub-module but calls nothing: a VIRGIN library (lazy tables unbuilt)."""
+    import importlib
     import importlib.util
 
     _REF_COUNTER[0] += 1
@@ -130,6 +135,9 @@ def fresh_library_copy():
     sys.modules[name] = mod
     try:
         spec.loader.exec_module(mod)
+        if preimport:
+            for sub in SUBMODULES:
+                importlib.import_module(name + "." + sub)
     except BaseException:
         drop_library_copy(name)
         raise
@@ -155,24 +163,28 @@ def convert_into(obj, mod):
     return obj
 
 
+def thunk_for(mod, name, arg_value):
+    """A callable making the API call `name` against the package copy `mod` on an equal argument."""
+    CD = mod.CodeData
+    if name == "from_code":
+        return lambda: CD.from_code(arg_value)
+    if name == "from_json_data":
+        return lambda: CD.from_json_data(copy.deepcopy(arg_value))
+    x = convert_into(arg_value, mod)
+    if name == "to_code":
+        return lambda: x.to_code()
+    if name == "normalize":
+        return lambda: x.normalize()
+    if name == "to_json_data":
+        return lambda: x.to_json_data()
+    raise ValueError(name)
+
+
 def pristine_call(name, arg_value):
     """The same API call evaluated by a pristine copy of the library on an equal argument."""
     mname, mod = fresh_library_copy()
     try:
-        CD = mod.CodeData
-        if name == "from_code":
-            return sched._outcome(lambda: CD.from_code(arg_value))
-        if name == "from_json_data":
-            doc = copy.deepcopy(arg_value)
-            return sched._outcome(lambda: CD.from_json_data(doc))
-        x = convert_into(arg_value, mod)
-        if name == "to_code":
-            return sched._outcome(lambda: x.to_code())
-        if name == "normalize":
-            return sched._outcome(lambda: x.normalize())
-        if name == "to_json_data":
-            return sched._outcome(lambda: x.to_json_data())
-        raise ValueError(name)
+        return sched._outcome(thunk_for(mod, name, arg_value))
     finally:
         drop_library_copy(mname)
 
@@ -192,6 +204,24 @@ def api_call(name, arg):
     if name == "from_json_data":
         return CD.from_json_data(arg)
     raise ValueError(name)
+
+
+def ambient_snapshot():
+    """Process-global interpreter settings a pure API call has no business changing (P6)."""
+    import gc
+    import signal
+    import warnings
+
+    out = [("recursionlimit", sys.getrecursionlimit()), ("switchinterval", sys.getswitchinterval()),
+           ("gc", gc.isenabled(), gc.get_threshold()), ("cwd", os.getcwd()),
+           ("environ", hashlib.sha256(repr(sorted(os.environ.items())).encode("utf-8", "backslashreplace")).hexdigest()[:12]),
+           ("trace", sys.gettrace() is None), ("profile", sys.getprofile() is None),
+           ("stdio", id(sys.stdout), id(sys.stderr), id(sys.stdin)), ("warnings.filters", len(warnings.filters)),
+           ("sigint", repr(signal.getsignal(signal.SIGINT))[:60]), ("sys.path", len(sys.path)),
+           ("dont_write_bytecode", sys.dont_write_bytecode)]
+    if hasattr(sys, "get_int_max_str_digits"):
+        out.append(("int_max_str_digits", sys.get_int_max_str_digits()))
+    return out
 
 
 def canon_outcome(name, out):
@@ -443,6 +473,21 @@ class World(object):
         self.event("alias", op["id"], s.id)
         return r
 
+    def op_ambient(self, op, rng):
+        """Swarm knob: the application's own interpreter settings (recorded, so replay sets them too)."""
+        if "int_max_str_digits" in op and hasattr(sys, "set_int_max_str_digits"):
+            if not hasattr(self, "_ambient_saved"):
+                self._ambient_saved = sys.get_int_max_str_digits()
+            sys.set_int_max_str_digits(op["int_max_str_digits"])
+            self.count("ambient_int_max_str_digits_%d" % op["int_max_str_digits"])
+        self.event("ambient", sorted(op.items()))
+        return None
+
+    def restore_ambient(self):
+        if hasattr(self, "_ambient_saved"):
+            sys.set_int_max_str_digits(self._ambient_saved)
+            del self._ambient_saved
+
     def op_evict(self, op, rng):
         i = op["in"][0]
         self.slots.pop(i, None)
@@ -476,7 +521,14 @@ class World(object):
             op["skipped"] = True
             return None
         if outcome is None:
+            before = ambient_snapshot()
             outcome = sched._outcome(lambda: api_call(name, arg.value))
+            after = ambient_snapshot()
+            if before != after:
+                changed = [a[0] for a, b in zip(before, after) if a != b]
+                self.violate("P6-ambient-interpreter-state-changed", name, ",".join(changed), {"before": [a for a, b in zip(before, after) if a != b], "after": [b for a, b in zip(before, after) if a != b]}, mode)
+                if self.stop:
+                    return None
         self.api_ops += 1
         arg.uses += 1
         if arg.uses > 1:
@@ -778,6 +830,67 @@ class World(object):
             self.count("abort_sweep_exhaustive_calls")
         self.faults_fired += 1
         self.check_all_unchanged(name, "abort")
+        return None
+
+    def op_virgin(self, op, rng):
+        """F3/F4 on FIRST USE: the call is made against a virgin copy of the library (every module imported,
+        nothing ever called, so lazily built tables do not exist yet) and is aborted at a seeded line - or run
+        by two pre-empted callers at once; the same copy is then used again and must give the result the
+        long-lived library gives.  A table published before it is filled poisons the copy for good."""
+        spec = op["call"]
+        cs = self._call_spec(spec)
+        if cs is None:
+            op["skipped"] = True
+            return None
+        name, arg = cs
+        self.ensure_shadow(spec)
+        if self.stop:
+            return None
+        ref = canon_outcome(name, sched._outcome(lambda: api_call(name, arg.value)))
+        if op["how"] == "abort" and "ks" not in op:
+            mname, mod = fresh_library_copy(True)
+            try:
+                n, _ = sched.count_lines(thunk_for(mod, name, arg.value), skip_module_frames=True)
+            finally:
+                drop_library_copy(mname)
+            op["n_lines"] = n
+            # first use is where lazy initialisation happens: bias to the early lines
+            op["ks"] = sorted(set([rng.randint(1, max(1, min(n, 60))) for _ in range(op.get("trials", 4))] + [rng.randint(1, max(1, n))]))
+        trials = op["ks"] if op["how"] == "abort" else [None]
+        for k in trials:
+            mname, mod = fresh_library_copy(True)
+            try:
+                th = thunk_for(mod, name, arg.value)
+                if op["how"] == "abort":
+                    fired, where, out = sched.run_with_abort(th, k, op.get("exc", "KeyboardInterrupt"), skip_module_frames=True)
+                    if not fired:
+                        continue
+                    self.count("fault_virgin_abort")
+                    outs = []
+                else:
+                    th2 = thunk_for(mod, name, arg.value)
+                    pre = sched.Preempter([th, th2], rng=rng, p=op.get("p", 0.1), schedule=op.get("switches"), first=op.get("first", 0))
+                    outs = pre.run()
+                    if "switches" not in op:
+                        op["switches"] = pre.switches
+                    self.count("fault_virgin_preempt")
+                    self.count("preempt_switches", len(pre.switches))
+                    where = None
+                self.faults_fired += 1
+                outs.append(sched._outcome(th))  # the copy is used again after the fault
+                for o in outs:
+                    got = canon_outcome(name, o)
+                    if got != ref:
+                        if got[0] == "ok" and ref[0] == "ok":
+                            loc = fp.diff_path(ref[1], got[1]) or "?"
+                        else:
+                            loc = "%s->%s" % (ref[0] if ref[0] == "ok" else "raise:" + ref[1], got[0] if got[0] == "ok" else "raise:" + got[1])
+                        self.violate("P7-first-use-fault-poisons-library", name, loc, {"how": op["how"], "k": k, "where": where}, op["how"] if op["how"] == "abort" else "preempt")
+                        return None
+            finally:
+                drop_library_copy(mname)
+        self.event("virgin", op["how"], name, tuple(spec["in"]), len(trials))
+        self.api_ops += len(trials)
         return None
 
     def op_preempt(self, op, rng):
